@@ -57,7 +57,7 @@ NOTES = {   # what happened on the FIRST trial of a change, and what was strengt
     "C19-5": "round 3. Same parsing slip as C04-5 seen from C19 (under-counted remote connections): C04 reports it; C19's clusters inject the remote counts directly.",
     "C19-6": "round 3. Same change as C02-6 seen from C19: C11 reports it.",
     "C20-5": "round 3. First trial: MISSED (the stress run's loopback gossip rarely queues two datagrams). The receive-loop histories now also run in a race-detector build.",
-    "C01-7": "round 4. NOT COVERED: needs TLS between the nodes with per-node certificates (a shared tls.Config mutated by the first dial); every harness runs plaintext clusters.",
+    "C01-7": "round 4. First trial: MISSED (every harness ran plaintext clusters). TLS clusters added afterwards: every proxy port with its own certificate valid for its own loopback address, one client configuration per node; the entry node forwards to several different peers.",
     "C01-8": "round 4. First trial: MISSED (no proxy harness cluster verified tokens). Clusters whose proxy ports verify tokens (Authorization and x-piko-authorization), requests entering at a node without the upstream: the token has to survive the inter-node hop (monitor token-refused).",
     "C02-8": "round 4. NOT COVERED: needs the application to write the protocol's reserved key _internal:compact through the gossip API; piko's server never does, and on the unchanged tree such a write already clashes with the marker (DESIGN 9 i).",
     "C03-7": "round 4. First trial: caught only as disagreement (packet bytes). Rediscovery probe: a live node that a peer suspected and expired completes two digest exchanges with that peer and must be known again.",
@@ -83,6 +83,22 @@ NOTES = {   # what happened on the FIRST trial of a change, and what was strengt
     "C18-8": "round 4. First trial: MISSED (rebalancing was never enabled). Scenario graceful-rebalance-enabled: shutdown terminates with the rebalance loop running.",
     "C19-7": "round 4. First trial: MISSED (averages up to 200). Corpus configurations with shed rate 0 / 0.005 and averages above 200.",
     "C19-8": "round 4. First trial: MISSED. The configuration `piko server` starts from (Default(), flags registered, empty command line) is compared with Default().",
+    "C01-9": "round 5. First trial: MISSED. Endpoint ids with a literal '%' on the TCP route (the client escapes once, the node decodes once): cluster corpus-percent, monitor only (the model's path grammar has no escapes).",
+    "C01-10": "round 5. MISSED by C01 (its clusters inject addresses); C18's harness runs the real server.NewServer: the address a node advertises for a given bind address is compared with the bind address (IPv6 literals keep their brackets).",
+    "C02-9": "round 5. First trial: caught only as disagreement (the dropped empty key was never followed by a later entry in the same delta). Corpus history empty-key; finding F3's signature in C02 narrowed to V3 holes.",
+    "C03-10": "round 5. First trial: MISSED by C03 (C13's codec sweep reports that the real decoder rejects an emitted packet). Corpus history with 450 outstanding tiny entries and 400-byte datagrams.",
+    "C06-10": "round 5. First trial: MISSED. A node that reads the whole forwarded request and then resets the connection; rule: one inter-node request per client request (deliveries to resetting nodes are counted).",
+    "C07-9": "round 5. First trial: MISSED. Close() while a Write is blocked by a stalled reader must return and release the Write.",
+    "C07-10": "round 5. First trial: MISSED (connections were opened one after the other). 24 clients connect at the same moment to an echoing upstream end through every kind of exit.",
+    "C08-9": "round 5. NOT COVERED: needs more than 256 concurrent stream opens on one upstream connection whose accept loop is behind (yamux accept backlog); the proxy harness uses scripted upstreams without yamux.",
+    "C08-10": "round 5. First trial: MISSED. A client-sent x-piko-forward: true in the timeout clusters: the timeout still applies at the serving node.",
+    "C09-9": "round 5. Reported by the route extractor failing closed (the router stored in a struct field it cannot follow); no request-level failing input from the check.",
+    "C09-10": "round 5. First trial: MISSED (GET/POST/PUT/DELETE/PATCH only). OPTIONS and PURGE added to the method variants on every port.",
+    "C10-9": "round 5. First trial: caught only as disagreement (an authorised token refused is not a safety violation). Rule: a valid token that lists no endpoints, or lists the named one, is not refused with 'endpoint not permitted'.",
+    "C13-10": "round 5. First trial: MISSED. Stream peers that send nothing / one byte / the preamble and then stay silent without closing: the handler gives up at its stream timeout.",
+    "C16-10": "round 5. NOT COVERED: needs a token that expires within microseconds of its verification (between the verifier and the arming of the deadline).",
+    "C18-9": "round 5. First trial: MISSED (refused reconnections were reset). The front can also accept, read the request and close cleanly (what a layer-4 balancer does).",
+    "C18-10": "round 5. NOT COVERED: needs the grace period used up by the drain AND a peer that accepts the leave connection without ever answering it; the scenarios have the former only.",
 }
 
 
